@@ -280,7 +280,7 @@ func mkUploader(d telemetry.Dir, cfg *verifref.UploadConfig, version string, url
 		dir:             d,
 		uploadServerURL: url,
 		startTime:       start,
-		logger:          log.New(io.Discard, "", 0),
+		logger:          log.New(vfLogSink(), "", 0),
 	}
 }
 
@@ -408,4 +408,12 @@ func diffMap(kind string, b verifref.Build, got, want0 map[string]int64) []strin
 		}
 	}
 	return ds
+}
+
+// vfLogSink: the uploader's log is discarded unless VERIF_DEBUG is set (replays).
+func vfLogSink() io.Writer {
+	if os.Getenv("VERIF_DEBUG") != "" {
+		return os.Stdout
+	}
+	return io.Discard
 }
